@@ -24,72 +24,105 @@ fn all_allowing(p: &mut NetflowParser) {
     p.allowed_versions = (0..=65535u16).collect();
 }
 
+/// six prior histories, delivered UNDER the configuration being judged (each of their calls is judged like the main
+/// one): the four of the shared menu, and two that contain allowed-or-not unparsable versions and garbage
+const NPRIOR: u64 = 6;
+fn prior_calls(k: usize) -> Vec<Vec<u8>> {
+    match k {
+        0..=3 => menu::prior_state(k),
+        4 => vec![menu::packet(menu::VERSION_6, 60), menu::packet(3, 61)],
+        _ => vec![menu::packet(menu::GARBAGE, 62), menu::packet(7, 63), menu::packet(menu::VERSION_0, 64), menu::packet(menu::VERSION_6, 65)],
+    }
+}
+
 pub fn judge(seq: &[usize], prior: usize, ak: usize, all_set: &std::collections::HashSet<u16>) -> Eval {
     let buf = menu::chain(seq);
     let s = menu::allowed_set(ak);
-    let prime = |p: &mut NetflowParser| {
-        for c in menu::prior_state(prior) {
-            p.parse_bytes(&c);
-        }
-    };
-    // reference run: a parser that allows every version, from the same state
-    let mut pall = NetflowParser::default();
-    prime(&mut pall);
-    pall.allowed_versions = all_set.clone();
-    let rall = pall.parse_bytes(&buf);
-    // subject
+    let s_set: std::collections::HashSet<u16> = s.iter().cloned().collect();
+    // calls: the prior history, the buffer, and the buffer once more (the filter has no memory: what a call reports
+    // and learns depends on the caches and the configured set alone)
+    let mut calls = prior_calls(prior);
+    let nprior = calls.len();
+    calls.push(buf.clone());
+    calls.push(buf.clone());
+    // subject: configured once, before anything is parsed
     let mut ps = NetflowParser::default();
-    prime(&mut ps);
-    ps.allowed_versions = s.iter().cloned().collect();
-    let rs = ps.parse_bytes(&buf);
-    // expected: maximal prefix of rall whose elements start with a version in S
-    let mut o = 0usize;
-    let mut keep = 0usize;
-    for e in &rall {
-        let (v, len) = wire_len(e, buf.len() - o);
-        if v == 0xffff || !s.contains(&v) {
-            // a one-byte tail (Incomplete) has no version: it is reported under every S
-            if v == 0xffff {
-                keep += 1;
-                o += len;
+    ps.allowed_versions = s_set.clone();
+    // state reference: an all-allowing parser that is fed, call by call, only the bytes the subject may look at
+    let mut pp = NetflowParser::default();
+    pp.allowed_versions = all_set.clone();
+    let mut pall = NetflowParser::default();
+    pall.allowed_versions = all_set.clone();
+    let mut issues = vec![];
+    let mut tags = vec![];
+    let mut keyacc = vec![];
+    for (ci, call) in calls.iter().enumerate() {
+        let which = if ci < nprior { "prior-call" } else if ci == nprior { "call" } else { "repeated-call" };
+        // reference run: a parser that allows every version, from the state the subject should be in
+        let c = caches(&pp);
+        pall.v9_parser.templates = c.v9_t.iter().map(|(k, t)| (*k, t.clone())).collect();
+        pall.v9_parser.options_templates = c.v9_o.iter().map(|(k, t)| (*k, t.clone())).collect();
+        pall.ipfix_parser.templates = c.ipfix_t.clone();
+        pall.ipfix_parser.options_templates = c.ipfix_o.clone();
+        let rall = pall.parse_bytes(call);
+        let rs = ps.parse_bytes(call);
+        // expected: maximal prefix of rall whose elements start with a version in S
+        let mut o = 0usize;
+        let mut keep = 0usize;
+        for e in &rall {
+            let (v, len) = wire_len(e, call.len() - o);
+            if v == 0xffff || !s.contains(&v) {
+                // a one-byte tail (Incomplete) has no version: it is reported under every S
+                if v == 0xffff {
+                    keep += 1;
+                    o += len;
+                }
+                break;
             }
+            keep += 1;
+            o += len;
+        }
+        let exp = &rall[..keep];
+        if format!("{:?}", exp) != format!("{:?}", rs) {
+            let kinds = |r: &[NetflowPacket]| r.iter().map(|e| format!("{:?}", c_pkt(e).version())).collect::<Vec<_>>();
+            let sig = if rs.len() > exp.len() { "reports-past-the-first-disallowed-version" } else if rs.len() < exp.len() { "drops-allowed-leading-elements" } else { "element-differs-from-all-allowed-run" };
+            issues.push(issue(format!("{}/{}", which, sig), format!("allowed {:?}, {} {}: expected {} leading elements {:?}, got {} {:?}", s, which, ci, exp.len(), kinds(exp), rs.len(), kinds(&rs))));
+        }
+        // caches: as if only the bytes of that prefix had been fed to an all-allowing parser
+        pp.parse_bytes(&call[..o.min(call.len())]);
+        if snap(&pp) != snap(&ps) {
+            issues.push(issue(format!("{}/caches-changed-by-filtered-packets", which), format!("allowed {:?}, {} {}: caches differ from those of an all-allowing parser fed only the first {} bytes", s, which, ci, o)));
             break;
         }
-        keep += 1;
-        o += len;
-    }
-    let mut issues = vec![];
-    let exp = &rall[..keep];
-    if format!("{:?}", exp) != format!("{:?}", rs) {
-        let kinds = |r: &[NetflowPacket]| r.iter().map(|e| format!("{:?}", c_pkt(e).version())).collect::<Vec<_>>();
-        let sig = if rs.len() > exp.len() { "reports-past-the-first-disallowed-version" } else if rs.len() < exp.len() { "drops-allowed-leading-elements" } else { "element-differs-from-all-allowed-run" };
-        issues.push(issue(sig, format!("allowed {:?}: expected {} leading elements {:?}, got {} {:?}", s, exp.len(), kinds(exp), rs.len(), kinds(&rs))));
-    }
-    // caches: as if only the bytes of that prefix had been fed to an all-allowing parser
-    let mut pp = NetflowParser::default();
-    prime(&mut pp);
-    pp.allowed_versions = all_set.clone();
-    pp.parse_bytes(&buf[..o.min(buf.len())]);
-    if snap(&pp) != snap(&ps) {
-        issues.push(issue("caches-changed-by-filtered-packets", format!("allowed {:?}: caches differ from those of an all-allowing parser fed only the first {} bytes", s, o)));
-    }
-    // an allowed version outside {5,7,9,10} is an UnknownVersion error carrying the unparsed bytes
-    if let Some(NetflowPacket::Error(er)) = rs.last() {
-        if er.remaining.len() >= 2 {
-            let v = r16(&er.remaining, 0);
-            if !matches!(v, 5 | 7 | 9 | 10) && !matches!(er.error, NetflowParseError::UnknownVersion(_)) {
-                issues.push(issue("unknown-version-not-reported-as-such", format!("version {} reported as {:?}", v, c_pkt(rs.last().unwrap()))));
+        // the configuration is the caller's: no call changes it
+        if ps.allowed_versions != s_set {
+            issues.push(issue(format!("{}/allowed-set-changed-by-a-call", which), format!("configured {:?}, after {} {} the parser holds {:?}", s, which, ci, { let mut v: Vec<u16> = ps.allowed_versions.iter().cloned().collect(); v.sort(); v })));
+            break;
+        }
+        // an allowed version outside {5,7,9,10} is an UnknownVersion error carrying the unparsed bytes
+        if let Some(NetflowPacket::Error(er)) = rs.last() {
+            if er.remaining.len() >= 2 {
+                let v = r16(&er.remaining, 0);
+                if !matches!(v, 5 | 7 | 9 | 10) && !matches!(er.error, NetflowParseError::UnknownVersion(_)) {
+                    issues.push(issue("unknown-version-not-reported-as-such", format!("version {} reported as {:?}", v, c_pkt(rs.last().unwrap()))));
+                }
             }
         }
+        if ci >= nprior {
+            if keep < rall.len() && keep > 0 {
+                tags.push("filter-cuts-in-the-middle");
+            }
+            if matches!(rs.last(), Some(NetflowPacket::Error(er)) if matches!(er.error, NetflowParseError::UnknownVersion(_))) {
+                tags.push("unknown-version-error");
+            }
+        } else if matches!(rs.last(), Some(NetflowPacket::Error(er)) if matches!(er.error, NetflowParseError::UnknownVersion(_))) {
+            tags.push("unknown-version-error-in-an-earlier-call");
+        }
+        keyacc.push(format!("{:?}", rs));
     }
-    let mut tags = vec![];
-    if keep < rall.len() && keep > 0 {
-        tags.push("filter-cuts-in-the-middle");
-    }
-    if matches!(rs.last(), Some(NetflowPacket::Error(er)) if matches!(er.error, NetflowParseError::UnknownVersion(_))) {
-        tags.push("unknown-version-error");
-    }
-    Eval { key: h64(&(format!("{:?}", rs), ak)) | 1, transitions: 3, issues, tags }
+    tags.sort();
+    tags.dedup();
+    Eval { key: h64(&(keyacc, ak)) | 1, transitions: 3 * calls.len() as u64, issues, tags }
 }
 
 pub fn spaces(tier: &str) -> Vec<Box<dyn Space>> {
@@ -99,10 +132,10 @@ pub fn spaces(tier: &str) -> Vec<Box<dyn Space>> {
     let nl = list_count(nm, maxlen);
     let all_set: std::sync::Arc<std::collections::HashSet<u16>> = std::sync::Arc::new((0..=65535u16).collect());
     let a2 = all_set.clone();
-    let radices = [nl, 4, menu::NALLOWED];
+    let radices = [nl, NPRIOR, menu::NALLOWED];
     let _ = all_allowing;
     vec![space(
-        &format!("buffers<={}-packets-over-21-packet-menu x 4 prior states x 64 allowed sets", maxlen),
+        &format!("buffers<={}-packets-over-21-packet-menu x 6 prior histories x 64 allowed sets, each call judged, buffer delivered twice", maxlen),
         product(&radices),
         move |i| {
             let d = digits(i, &radices);
@@ -112,7 +145,7 @@ pub fn spaces(tier: &str) -> Vec<Box<dyn Space>> {
         move |i| {
             let d = digits(i, &radices);
             let seq: Vec<usize> = list_at(nm, maxlen, d[0]).into_iter().map(|k| MENU[k]).collect();
-            json!({"buffer": seq.iter().map(|k| menu::NAMES[*k]).collect::<Vec<_>>(), "buffer_hex": hex(&menu::chain(&seq)), "prior_calls": menu::prior_state(d[1] as usize).iter().map(|c| hex(c)).collect::<Vec<_>>(), "allowed_versions": menu::allowed_set(d[2] as usize)})
+            json!({"buffer": seq.iter().map(|k| menu::NAMES[*k]).collect::<Vec<_>>(), "buffer_hex": hex(&menu::chain(&seq)), "prior_calls": prior_calls(d[1] as usize).iter().map(|c| hex(c)).collect::<Vec<_>>(), "allowed_versions": menu::allowed_set(d[2] as usize)})
         },
     )]
 }
@@ -123,11 +156,11 @@ pub fn run(tier: &str) -> i32 {
         prop: "C12".into(),
         tier: tier.into(),
         level: "model_checking",
-        rule: "every buffer = sequence of 1..=3 (thorough 4) packets over a 21-packet menu (17 self-delimiting packets, version-6, version-0, V9 truncated inside a template, V9 data for an absent id) x 4 prior cache states x all 64 allowed sets (16 subsets of {5,7,9,10} x extras {none,{6},{0,11,65535}}); oracle relative to a parser allowing all 65 536 versions from the same state: result(S) = maximal prefix of result(ALL) whose elements' versions are in S, caches(S) = caches of an ALL-parser fed only that prefix's bytes, unknown allowed versions are UnknownVersion errors. Distinct by hash of (result, allowed set)".into(),
-        bounds: json!({"buffer_len": if thorough {4} else {3}, "prior_states": 4, "allowed_sets": 64}),
+        rule: "every buffer = sequence of 1..=3 (thorough 4) packets over a 21-packet menu (17 self-delimiting packets, version-6, version-0, V9 truncated inside a template, V9 data for an absent id) x 6 prior histories (delivered under the configuration; two contain unparsable versions and garbage) x all 64 allowed sets (16 subsets of {5,7,9,10} x extras {none,{6},{0,11,65535}, 24 aliasing numbers}), the buffer delivered twice; EVERY call of the history is judged; oracle relative to a parser allowing all 65 536 versions from the same state: result(S) = maximal prefix of result(ALL) whose elements' versions are in S, caches(S) = caches of an ALL-parser fed only that prefix's bytes, unknown allowed versions are UnknownVersion errors, and allowed_versions itself is unchanged by every call. Distinct by hash of (result, allowed set)".into(),
+        bounds: json!({"buffer_len": if thorough {4} else {3}, "prior_histories": 6, "calls_judged_per_case": "2..=6", "allowed_sets": 64}),
         assumptions: vec![],
         trusted_base: vec!["c12::judge".into()],
-        required_tags: vec!["filter-cuts-in-the-middle", "unknown-version-error"],
+        required_tags: vec!["filter-cuts-in-the-middle", "unknown-version-error", "unknown-version-error-in-an-earlier-call"],
         extra: Default::default(),
     };
     run_report(rep, spaces(tier))
